@@ -1,0 +1,26 @@
+//go:build verif
+
+package verifhook
+
+import (
+	"github.com/IBM/sarama"
+
+	"github.com/linkedin/Burrow/core/internal/consumer"
+	"github.com/linkedin/Burrow/core/protocol"
+)
+
+// KafkaClient is a handle on a real consumer.KafkaClient module (decoder part only).
+type KafkaClient struct {
+	m *consumer.KafkaClient
+}
+
+// NewKafkaClient builds the module without connecting anywhere.
+func NewKafkaClient(app *protocol.ApplicationContext, name, cluster, allowlist, denylist string) *KafkaClient {
+	return &KafkaClient{m: consumer.VerifNewKafkaClient(app, name, cluster, allowlist, denylist)}
+}
+
+// ProcessMessage is processConsumerOffsetsMessage.
+func (c *KafkaClient) ProcessMessage(msg *sarama.ConsumerMessage) { c.m.VerifProcessMessage(msg) }
+
+// Accept is acceptConsumerGroup.
+func (c *KafkaClient) Accept(group string) bool { return c.m.VerifAcceptConsumerGroup(group) }
